@@ -44,8 +44,8 @@ type l1cfg struct {
 	IOConc     int
 	NTx        int
 	NAlt       int
-	// ZeroDiscard: this schedule may discard every precommitted tx (back to the empty store). Kept to a fraction
-	// of the schedules because re-replicating tx 1 afterwards runs into the stale-BlRoot finding and ends the schedule.
+	// ZeroDiscard: a scratch replica precommits a few txs, discards all of them and takes tx 1 again. Kept apart
+	// from the scheduled replica, whose chain would be lost to the stale-BlRoot finding.
 	ZeroDiscard bool
 }
 
@@ -61,7 +61,7 @@ func genL1(r *rand.Rand, i int, ntx, nalt int) l1cfg {
 		REmbedded:   r.IntN(4) == 0,
 		ExtAllow:    i%2 == 0,
 		RSynced:     r.IntN(4) == 0,
-		ZeroDiscard: i%6 == 1 || i%6 == 2,
+		ZeroDiscard: i%3 == 1,
 		Skip:        i%5 == 3 || i%5 == 4,
 		Window:      []int{2, 3, 5, 8, 16}[r.IntN(5)],
 		PFileSize:   []int{512, 1024, 4096, 1 << 16}[r.IntN(4)],
@@ -414,11 +414,48 @@ func (s *l1run) buildPrimary() bool {
 		}
 		dry.Close()
 	}
+	if cf.ZeroDiscard && s.n >= 3 {
+		s.zeroDiscardScenario()
+	}
 	if s.forkAt >= s.n {
 		s.forkAt = 0
 	}
 	s.c.Count("l1_truncated_exports", int64(len(s.truncated)))
 	return s.n >= 4
+}
+
+// zeroDiscardScenario (scratch replica): txs 1..k precommitted, all of them discarded, tx 1 replicated again.
+func (s *l1run) zeroDiscardScenario() {
+	dir := s.c.Dir("zero")
+	defer os.RemoveAll(dir)
+	st, err := store.Open(dir, s.cf.replicaOpts().WithExternalCommitAllowance(true).WithSynced(false).WithMaxActiveTransactions(8))
+	if err != nil {
+		return
+	}
+	defer st.Close()
+	ctx, cancel := context.WithTimeout(context.Background(), opTimeout)
+	defer cancel()
+	k := uint64(2 + s.r.IntN(2))
+	for id := uint64(1); id <= k; id++ {
+		if _, err := st.ReplicateTx(ctx, s.exports[id], s.cf.Skip, false); err != nil {
+			return
+		}
+	}
+	if n, err := st.DiscardPrecommittedTxsSince(1); err != nil || uint64(n) != k {
+		s.viol("discard/frontier", fmt.Sprintf("DiscardPrecommittedTxsSince(1) with %d precommitted txs returned (%d, %v)", k, n, err), nil)
+		return
+	}
+	hdr, err := st.ReplicateTx(ctx, s.exports[1], s.cf.Skip, false)
+	s.c.Eval(1)
+	s.c.Distinct("L1/after-discard-of-everything/honest/" + errClass(err))
+	switch {
+	case err != nil:
+		s.viol("replicatetx/honest-next-export-refused/"+errClass(err), fmt.Sprintf("tx 1 offered after every precommitted tx was discarded: %v", err), nil)
+	case hdr.Alh() != s.alhs[0] && hdr.BlTxID == 0 && hdr.BlRoot != ([32]byte{}):
+		s.viol("replicatetx/first-tx-after-discard/stale-blroot", fmt.Sprintf("txs 1..%d precommitted, all discarded, then the honest export of tx 1 (BlTxID 0, BlRoot zero) was stored with BlRoot %x (left in the pooled tx holder by an earlier precommit): alh %x, the primary's is %x", k, hdr.BlRoot[:6], hdr.Alh(), s.alhs[0]), map[string][]byte{"export.bin": s.exports[1]})
+	case hdr.Alh() != s.alhs[0]:
+		s.viol("replicatetx/honest/header-differs", fmt.Sprintf("tx 1 replicated after discarding everything has alh %x, the primary's is %x", hdr.Alh(), s.alhs[0]), nil)
+	}
 }
 
 func (s *l1run) openReplica() bool {
@@ -858,7 +895,7 @@ func (s *l1run) discard() {
 		return
 	}
 	from := st.com + 1 + s.r.Uint64N(st.pre-st.com)
-	if from == 1 && !s.cf.ZeroDiscard {
+	if from == 1 {
 		if st.pre < 2 {
 			return
 		}
@@ -1153,7 +1190,7 @@ func (s *l1run) alterBatch(count int) {
 		}
 		s.makeRoom(2)
 		before = s.state()
-		if id == 1 && (s.lastDiscard > 0 || !s.cf.ZeroDiscard) {
+		if id == 1 {
 			// an accepted alteration of tx 1 is repaired by discarding everything; tx 1 after such a discard is
 			// judged by deliverNext (stale BlRoot finding), not here
 			s.deliverNext("first-tx")
